@@ -85,6 +85,7 @@ NoAdopt == [ph |-> "none"]
 NoMark  == [nm |-> 0, cnt |-> 0]
 NoMdir  == [ex |-> FALSE, files |-> <<>>, hint |-> <<>>, hintThere |-> FALSE, marker |-> NoMark]
 Idle    == [op |-> "idle"]
+NoInflight == [w |-> <<>>, mid |-> 0]
 
 (* what a reader sees through the index: the record at the indexed position, *including its key* *)
 Resolve(k) ==
@@ -136,7 +137,7 @@ Init ==
   /\ lock = TRUE /\ st = "open" /\ active = 0
   /\ index = [k \in Keys |-> NoPos] /\ total = 0 /\ reclaim = 0
   /\ batch = NoBatch /\ merge = NoMerge /\ adopt = NoAdopt /\ pc = <<>> /\ cur = Idle
-  /\ acked = <<>> /\ floor = 0 /\ inflight = <<>> /\ recok = TRUE /\ bk = [has |-> FALSE]
+  /\ acked = <<>> /\ floor = 0 /\ inflight = NoInflight /\ recok = TRUE /\ bk = [has |-> FALSE]
   /\ nextMid = 1 /\ nextBid = 1 /\ nops = 0 /\ nfaults = 0 /\ nmerges = 0 /\ nrestarts = 0
 
 (* ---- Put / Delete / Sync ---------------------------------------------------- *)
@@ -362,11 +363,11 @@ CloseCall ==
   /\ Feat("restart") /\ Quiescent /\ ~merge.on /\ nrestarts < MaxRestarts
   /\ nrestarts' = nrestarts + 1
   /\ durable' = [f \in Fids |-> Len(dir[f])]      \* Close flushes every file
-  /\ st' = "down" /\ lock' = FALSE /\ floor' = Len(acked) /\ inflight' = <<>>
+  /\ st' = "down" /\ lock' = FALSE /\ floor' = Len(acked) /\ inflight' = NoInflight
   /\ UNCHANGED <<dir, dhint, mdir, active, index, total, reclaim, batch, merge, adopt, pc, cur, acked, recok, bk,
                  nextMid, nextBid, nops, nfaults, nmerges>>
 
-InFlightW == IF cur # Idle /\ cur.op \in {"put", "del", "commit"} THEN cur.w ELSE <<>>
+InFlightW == IF cur # Idle /\ cur.op \in {"put", "del", "commit"} THEN [w |-> cur.w, mid |-> cur.mid] ELSE NoInflight
 Volatile == /\ st' = "down" /\ lock' = FALSE /\ batch' = NoBatch /\ merge' = NoMerge /\ adopt' = NoAdopt
             /\ pc' = <<>> /\ cur' = Idle /\ nfaults' = nfaults + 1
 
@@ -463,9 +464,11 @@ AdoptStep ==
 \* the floor, or everything acknowledged plus the whole call that was in flight; acked is rebased to it
 Rebase(view) ==
     LET P == {p \in floor..Len(acked) : MapOf(SubSeq(acked, 1, p)) = view} IN
-    IF P # {} THEN /\ acked' = SubSeq(acked, 1, MaxOf(P)) /\ UNCHANGED recok
-    ELSE IF inflight # <<>> /\ ApplyW(MapOf(acked), inflight) = view
-         THEN /\ acked' = Append(acked, [w |-> inflight, mid |-> 0]) /\ UNCHANGED recok
+    \* when several explanations give the same mapping the longest is taken: the log may still hold the records
+    \* of all of them, and a later fault may expose any prefix of those
+    IF inflight.w # <<>> /\ ApplyW(MapOf(acked), inflight.w) = view
+    THEN /\ acked' = Append(acked, inflight) /\ UNCHANGED recok
+    ELSE IF P # {} THEN /\ acked' = SubSeq(acked, 1, MaxOf(P)) /\ UNCHANGED recok
     ELSE /\ recok' = FALSE /\ acked' = << [w |-> [k \in {k \in Keys : view[k] # Nil} |-> view[k]], mid |-> 0] >>
 
 \* Open, last phase: open the files, build the index (hint + scan, or scan only), create an active file if none.
@@ -492,7 +495,7 @@ OpenLoad ==
              /\ active' = MaxOf(DOMAIN newdir)
              /\ st' = "open" /\ UNCHANGED lock
              /\ (IF s.alien # 0 THEN recok' = FALSE /\ acked' = acked ELSE Rebase(view))
-             /\ floor' = 0 /\ inflight' = <<>>
+             /\ floor' = 0 /\ inflight' = NoInflight
   /\ adopt' = NoAdopt
   /\ UNCHANGED <<dhint, mdir, batch, merge, pc, cur, bk, ctrs>>
 
